@@ -1611,6 +1611,11 @@ mod settings {
             e.file = Some(format!("[cors]\n{} = []\n", T[i].5));
             out.push(e);
         }
+        // TOML white space is the space and the tab
+        for (n, f) in ["port\t=\t4001\n", "\tport = 4001\n", "port =\t'4001'\t# comment\n", "\t[cors]\t\n\tmax_age\t=\t4001\n"].iter().enumerate() {
+            let i = if n == 3 { 9 } else { 1 };
+            out.push(Scenario { name: format!("tab as white space #{}", n), env: vec![(i, "1".into())], file: Some(f.to_string()), file_vals: vec![(i, "4001".into())], cli: vec![], cli_vals: vec![] });
+        }
         s.name = "no source at all".into(); s.cli = vec![]; s.cli_vals = vec![]; out.push(s.clone());
         s.name = "unreadable file ignored".into(); s.file = None; s.env = vec![(2, "17".into())]; out.push(s);
         out
